@@ -102,3 +102,202 @@ Print Assumptions C13_passthrough.
 Print Assumptions C13_spec_upto_last_nl.
 Print Assumptions C13_up_to_last_newline.
 Print Assumptions C13_pending_has_no_newline.
+
+(** ======================================================================
+    "Text produced by the debugger itself (prompts, command output) is never
+    reported as script output, and the real standard output still receives
+    everything the script wrote."
+
+    Tie: Gen/DebuggerStream.v (translate/debugger_stream.py, regenerated from
+    /repo on every check) holds the statement trees of StdInOut's methods, of
+    the construction of each Pdb (Factory._factory, CustomizedPdb.__init__), of
+    peek_textio and the wrapper it installs on sys.stdout.write, of
+    peek_stdout / peek_stdout_by_key and of Repeater.on_write_stdout;
+    Stdout/DebugTie.v interprets them.
+
+    TWO-SINK run: a run is ANY list of
+      LScript a s       the script calls sys.stdout.write(s) while current_trace_no() = a
+      LDbgWrite n s     the Pdb of trace n writes s to its stdout (it runs IN trace n)
+      LDbgFlush n / LDbgReadline n c   its stdout.flush() / stdin.readline(), the user answers c
+    where which object "its stdout / stdin" is, is computed from the regenerated
+    factory.  [d_events] = the OnWriteStdout sequence, [d_real] = what the real
+    stdout received, [d_prompts n] = the texts handed to the prompt function by
+    the Pdb of trace n.  [prompt] = Pdb.prompt, any text. *)
+From Coq Require Import String.
+From NL Require Import Stdout.DebugSyntax Stdout.DebugTie Gen.DebuggerStream.
+
+(** NON-INTERFERENCE: erasing every write / flush / readline of every debugger
+    from the run leaves the reported sequence unchanged (all keys at once, hence
+    per key); it is the sequence Stdout/Model.v reports for the script's writes
+    alone -- so no character of debugger text is ever reported *)
+Theorem C13_debugger_text_never_reported : forall prompt ls,
+  d_events prompt ls = d_events prompt (erase_dbg ls) /\
+  d_events prompt ls = events (script_writes ls).
+Proof. exact debugger_text_never_reported. Qed.
+
+(** what is reported for trace n is a prefix of what the SCRIPT wrote in trace n
+    (up to its last newline), whatever the debugger of n -- which runs in the
+    same thread, under the same trace number -- wrote in between *)
+Theorem C13_reported_is_script_text : forall prompt ls n, n <> 0 ->
+  reported_of (Some n) (d_events prompt ls) = upto_last_nl (writes_of (Some n) (script_writes ls)).
+Proof. exact reported_is_script_text. Qed.
+
+(** PASSTHROUGH: the real stdout receives exactly the script's writes, in order,
+    each once, and nothing of the debugger's; this is [real] of Stdout/Model.v
+    on the script's writes, i.e. C13_passthrough transfers to every interleaving *)
+Theorem C13_real_stdout_gets_everything : forall prompt ls,
+  d_real prompt ls = map text_of (script_writes ls) /\ d_real prompt ls = real (script_writes ls).
+Proof. exact real_stdout_gets_everything. Qed.
+
+(** ... whatever the callback does (any state of its own, any function) *)
+Theorem C13_tie_real_stdout_any_callback : forall (C : Type) (cb : pykey -> text -> C -> C) prompt c0 ls,
+  snd (g_w _ (grun (C * list text) (cbk_any C cb) (org_any C) prompt (c0, []) ls)) = map text_of (script_writes ls).
+Proof. exact real_any_callback. Qed.
+
+Theorem C13_tie_noninterference_any_callback : forall (W : Type) cbk org prompt (w : W) ls,
+  g_w W (grun W cbk org prompt w (erase_dbg ls)) = g_w W (grun W cbk org prompt w ls).
+Proof. exact grun_noninterference. Qed.
+
+(** the capture state (buffer, events, real stdout) after any interleaving is
+    that of Stdout/Model.v on the script's writes: every theorem above transfers *)
+Theorem C13_tie_run_is_model : forall prompt ls, g_w _ (drun prompt ls) = run (script_writes ls).
+Proof. exact drun_is_model. Qed.
+
+(** PROMPT TEXT (what C06's text-attribution oracle relies on): the texts
+    handed to the prompt function for trace n and the commands returned to its
+    Pdb are a function of the history of n's debugger alone ... *)
+Theorem C13_tie_prompt_text_is_debugger_text : forall prompt ls n,
+  d_prompts prompt n ls = prompts_hist prompt n ls /\ d_cmds prompt n ls = cmds_hist prompt n ls.
+Proof. exact prompt_text_is_debugger_text. Qed.
+
+Theorem C13_tie_prompts_independent : forall prompt ls n,
+  d_prompts prompt n ls = d_prompts prompt n (filter (dbg_only n) ls).
+Proof. exact prompts_independent. Qed.
+
+(** ... when the debugger behaves like Pdb (what it wrote since its last read
+    ends with the prompt whenever it reads), each prompt text is EXACTLY what the
+    debugger of n wrote since its last readline ... *)
+Theorem C13_tie_prompt_text_since_last_readline : forall prompt ls n,
+  pdb_like prompt n ls = true -> d_prompts prompt n ls = segments n ls.
+Proof. exact prompt_text_since_last_readline. Qed.
+
+(** ... and in every case nothing n's debugger wrote is lost, duplicated or
+    mixed with another trace's, and every text handed over ends with the prompt *)
+Theorem C13_tie_prompt_text_conserved : forall prompt n ls,
+  List.concat (prompts_hist prompt n ls) ++ pending prompt n ls = dbg_writes_of n ls.
+Proof. exact prompt_text_conserved. Qed.
+
+Theorem C13_tie_prompts_accepted : forall prompt n ls,
+  Forall (fun t => accepts (VText prompt) t = true) (prompts_hist prompt n ls).
+Proof. exact prompts_accepted. Qed.
+
+(** ---- the regenerated code, method by method (all object states, arguments, oracle answers) *)
+
+(** StdInOut.write(s) appends s to _prompt_text, returns len(s), calls nothing *)
+Theorem C13_tie_stdinout_write : forall o e f t s,
+  so_call o stdinout_write (mkS e f (VText t)) [VText s] =
+  (mkS e f (VText (t ++ s)), [], Some (VInt (Z.of_nat (List.length s)))).
+Proof. exact write_spec. Qed.
+
+(** write / flush call nothing and readline at most the prompt function, in ANY
+    state: no statement of them writes to sys.stdout or calls the peek callback *)
+Theorem C13_tie_stdinout_quiet : forall o ob,
+  (forall v, snd (fst (so_call o stdinout_write ob [v])) = []) /\
+  snd (fst (so_call o stdinout_flush ob [])) = [] /\
+  forallb quiet_fx (snd (fst (so_call o stdinout_readline ob []))) = true.
+Proof. intros o ob. split; [intro v; apply write_quiet | split; [apply flush_quiet | apply readline_quiet]]. Qed.
+
+(** readline(): prompt function called once with exactly the accumulated text,
+    which is cleared; the command is returned -- or AssertionError, nothing changed *)
+Theorem C13_tie_stdinout_readline : forall (o : oracle) p t,
+  (accepts (VText p) t = true ->
+   so_call o stdinout_readline (mkS (VText p) VPromptFn (VText t)) [] =
+   (mkS (VText p) VPromptFn (VText []), [FxPrompt (VText t)], o (FxPrompt (VText t)))) /\
+  (accepts (VText p) t = false ->
+   so_call o stdinout_readline (mkS (VText p) VPromptFn (VText t)) [] =
+   (mkS (VText p) VPromptFn (VText t), [], None)).
+Proof. intros o p t. split; [apply readline_spec_ok | apply readline_spec_refused]. Qed.
+
+(** Pdb's output stream is a StdInOut object (not sys.stdout, not Pdb's default) ... *)
+Theorem C13_tie_pdb_stdout_private : forall prompt,
+  exists i o, pdb_streams prompt = Some (i, o) /\ is_private o = true.
+Proof. exact pdb_stdout_private. Qed.
+
+(** ... created by the same call of _factory (one per trace), the same object
+    Pdb reads from, left with empty text, the prompt function, prompt_end = pdb.prompt *)
+Theorem C13_tie_pdb_streams_own : forall prompt,
+  exists x, pdb_streams prompt = Some (SelfStdio x, SelfStdio x) /\
+            obj_of_stream prompt (SelfStdio x) = Some (mkS (VText prompt) VPromptFn (VText [])).
+Proof. exact pdb_streams_own. Qed.
+
+(** the wrapper installed on sys.stdout.write: callback(s), then the ORIGINAL
+    write with the same s, whose value it returns; only a raising callback keeps
+    the text from the real stdout; it is the function Stdout/Model.v is built on *)
+Theorem C13_tie_wrapper : forall (o : oracle) s r,
+  o (FxCall "callback"%string s) = Some r ->
+  wrapper_call o s = ([FxCall "callback"%string s; FxCall "org_write"%string s], o (FxCall "org_write"%string s)).
+Proof. exact wrapper_spec. Qed.
+
+Theorem C13_tie_wrapper_callback_raises : forall (o : oracle) s,
+  o (FxCall "callback"%string s) = None -> wrapper_call o s = ([FxCall "callback"%string s], None).
+Proof. exact wrapper_spec_callback_raises. Qed.
+
+Theorem C13_tie_wrapper_is_peek_write : forall (W : Type) (cbk org : text -> W -> W) s w,
+  sys_write_w W cbk org s w = peek_write cbk org s w.
+Proof. exact sys_write_w_is_peek_write. Qed.
+
+Theorem C13_tie_sys_write_is_model_step : forall a s st,
+  sys_write_w (buf * world) (the_callback a) org_write s st = step st (Write a s).
+Proof. exact sys_write_is_model_step. Qed.
+
+(** peek_textio installs the wrapper exactly while the block runs and restores
+    the original write; what is wrapped is sys.stdout; no other print / sys.stdout
+    in the code that runs in the child *)
+Theorem C13_tie_peek_context_manager : p_at_yield peek_cm = [WWrapper] /\ p_cur peek_cm = WOrg.
+Proof. exact peek_cm_spec. Qed.
+
+Theorem C13_tie_peek_target :
+  peek_stdout_target = SysStdout /\ peek_stdout_passes_callback = true /\ other_stdout_uses = [].
+Proof. exact peek_target_spec. Qed.
+
+(** Repeater.on_write_stdout, regenerated, is the function of Stdout/Model.v *)
+Theorem C13_tie_on_write_stdout : forall ctn k line w,
+  ows_sem on_write_stdout_event ctn k line w = on_write_stdout ctn k line w.
+Proof. exact ows_is_model. Qed.
+
+(** non-vacuity: script writes of two traces interleaved with the writes,
+    flushes and readlines of both debuggers; a script line ('a' ... 'b\n')
+    assembled AROUND a whole debugger interaction of the same trace *)
+Example C13_tie_example_nonvacuous :
+  d_events P_PDB ex_dbg = [(Some 2, txt [120; 10]); (Some 1, txt [97; 98; 10])] /\
+  d_real P_PDB ex_dbg = [txt [97]; txt [120; 10]; txt [98; 10]] /\
+  d_prompts P_PDB 1 ex_dbg = [txt [62; 32; 102; 40; 49; 41; 10; 40; 80; 100; 98; 41; 32]; txt [52; 50; 10; 40; 80; 100; 98; 41; 32]] /\
+  d_prompts P_PDB 2 ex_dbg = [txt [62; 32; 103; 10; 40; 80; 100; 98; 41; 32]] /\
+  d_cmds P_PDB 1 ex_dbg = [txt [110]; txt [99]] /\
+  pdb_like P_PDB 1 ex_dbg = true /\ pdb_like P_PDB 2 ex_dbg = true /\
+  d_events P_PDB (erase_dbg ex_dbg) = d_events P_PDB ex_dbg.
+Proof. exact ex_dbg_runs. Qed.
+
+Print Assumptions C13_debugger_text_never_reported.
+Print Assumptions C13_reported_is_script_text.
+Print Assumptions C13_real_stdout_gets_everything.
+Print Assumptions C13_tie_real_stdout_any_callback.
+Print Assumptions C13_tie_noninterference_any_callback.
+Print Assumptions C13_tie_run_is_model.
+Print Assumptions C13_tie_prompt_text_is_debugger_text.
+Print Assumptions C13_tie_prompts_independent.
+Print Assumptions C13_tie_prompt_text_since_last_readline.
+Print Assumptions C13_tie_prompt_text_conserved.
+Print Assumptions C13_tie_prompts_accepted.
+Print Assumptions C13_tie_stdinout_write.
+Print Assumptions C13_tie_stdinout_quiet.
+Print Assumptions C13_tie_stdinout_readline.
+Print Assumptions C13_tie_pdb_stdout_private.
+Print Assumptions C13_tie_pdb_streams_own.
+Print Assumptions C13_tie_wrapper.
+Print Assumptions C13_tie_wrapper_callback_raises.
+Print Assumptions C13_tie_wrapper_is_peek_write.
+Print Assumptions C13_tie_sys_write_is_model_step.
+Print Assumptions C13_tie_peek_context_manager.
+Print Assumptions C13_tie_peek_target.
+Print Assumptions C13_tie_on_write_stdout.
